@@ -53,6 +53,7 @@ def run(tier, seed):
     pv, dbv = versions()
     golden_checked = 0
     golden_note = ""
+    satloc_cov = {}
     if (pv, dbv) == (gold["protocol_version"], gold["db_version"]):
         gp = os.path.join(OUT, "c02_golden.json")
         p = common.run_vh(["golden", os.path.join(ROOT, "golden", "corpus.ndjson"), gp], timeout=1800)
@@ -66,6 +67,17 @@ def run(tier, seed):
                 sc = [c for c in corpus if str(c["run"]) == run]
                 v.report("golden:%s" % run, "the answers for golden schedule %s differ from the pinned digest of protocol %s / db %s" % (run, pv, dbv),
                          {"kind": "golden", "run": run, "expected": d, "got": now.get(run), "schedule": sc[0]["steps"] if sc else None})
+        # the transaction-graph helper contracts answer as the reference transcription (SatLoc.tla) says
+        import satloc
+        sl = satloc.run(tier)
+        if sl["model_violation"]:
+            v.report("model:SatLoc:" + sl["model_violation"], "SatLoc.tla violates " + sl["model_violation"], {"tlc": sl["tlc"]})
+        else:
+            for viol in sl["report"]["violations"]:
+                if viol["kind"] == "mismatch":
+                    v.report(satloc.signature(viol), "%s %s: %s" % (viol["fn"], json.dumps(viol["case"])[:300], "; ".join(viol["why"])[:300]),
+                             {"kind": "satloc", "case": viol["case"], "observed": viol})
+            satloc_cov = {k: sl["report"][k] for k in ("cases", "requests", "located", "errors")}
     else:
         golden_note = "tree declares protocol %s / db %s, pinned digests are for %s / %s: comparison skipped" % (
             pv, dbv, gold["protocol_version"], gold["db_version"])
@@ -74,8 +86,8 @@ def run(tier, seed):
                    "answer compared; non-trivial = a schedule with multi-transaction blocks or multi-log receipts (all generated "
                    "schedules have both with high probability; counted as distinct schedules)",
            "samples": [scheds[0][:8]], "replica_runs": runs, "events_compared": events, "golden_schedules_checked": golden_checked,
-           "golden_note": golden_note, "tlc_states_generated": gen,
-           "checker_cmd": "tlc -simulate GenRef.tla ; vh replicas ; vh golden"}
+           "golden_note": golden_note, "tlc_states_generated": gen, "satloc_cases": satloc_cov,
+           "checker_cmd": "tlc -simulate GenRef.tla ; vh replicas ; vh golden ; tlc SatLoc.tla ; vh satloc"}
     rc = v.finish()
     common.write_evidence("C02", tier, seed, "exploration", cov,
                           ["JSON object member order is canonicalised (only list order is significant); mineTimestamp zeroed",
